@@ -13,6 +13,37 @@ from .guards import class_functions, locks_of, top_function, lambda_site, lambda
 VERIF = os.path.dirname(os.path.dirname(os.path.abspath(__file__)))
 
 
+def scope_guards_alive(f, st):
+    """local objects of helper classes introduced after the reference tree whose (inlined) destructor body is
+    non-empty and whose scope encloses statement st.  Their destructors also run when st throws - code the CFG (which has
+    no exception edges for destructors) does not show; a rule about what happens on a throw cannot decide such a
+    function and answers 'unknown' instead of a verdict."""
+    from .engine import _ref_target
+    out = []
+    sp = f.pos_of(st)
+    anc = {a["id"] for a in f.ancestors(st)}
+    decls = {}
+    for s in f.stmts.values():
+        if s["k"] == "DeclStmt":
+            for d in s["decls"]:
+                decls["l:" + d["name"]] = s
+    seen = set()
+    for s in f.stmts.values():
+        if s["k"] == "DeclStmt":
+            for d in s["decls"]:
+                if d.get("inl_this") and "dtor_" in d.get("name", "") and d.get("init"):
+                    tgt = path(f, f.s(d["init"]))
+                    var = tgt[1:] if tgt and tgt.startswith("&") else tgt
+                    ds = decls.get(var)
+                    if ds is None or var in seen:
+                        continue
+                    par = f.par(ds)
+                    if par is not None and par["id"] in anc and sp and f.pos_of(ds) and f.dominates(f.pos_of(ds), sp):
+                        seen.add(var)
+                        out.append(var)
+    return out
+
+
 def in_files(f, files):
     return any(f.file.endswith("/" + x) for x in files)
 
@@ -297,9 +328,31 @@ def raii_only(ctx, rid, files, floor=20):
             continue
         if not ops:
             ctx.ob(rid, True, f.where, "%s contains no raw mutex operation" % f.name, fn=f.label, inst=f.qname)
+            continue
+        acquires = [(st, txt) for st, txt in ops if re.match(r"raw (lock|try_lock\w*|lock_shared|try_lock_shared\w*)\(\)", txt)
+                    or txt.startswith("std::lock")]
+        if acquires:
+            # an acquisition by hand whose release is not guaranteed on every path (something in between can throw, or a
+            # path leaves the function first)
+            for st, txt in ops:
+                ctx.ob(rid, False, f.loc(st), "%s contains no raw mutex operation" % f.name, txt, fn=f.label, inst=f.qname)
+            continue
+        # hand-over operations only (unlock of a mutex this function did not take by hand, lock.release(), adopt_lock):
+        # wrong for certain when the mutex is also held by an RAII guard of this function (it is then unlocked twice),
+        # otherwise part of an ownership protocol that spans functions, which this rule does not follow
+        la = locks_of(ctx.eng, ctx.fb, f)
         for st, txt in ops:
-            ctx.ob(rid, False, f.loc(st), "%s contains no raw mutex operation" % f.name, txt,
-                   fn=f.label, inst=f.qname)
+            m = path(f, f.s(st["obj"])) if txt.startswith("raw unlock") else None
+            pos = f.pos_of(st)
+            dbl = m is not None and pos is not None and any(
+                v.mutex == m and v.st in (HELD, MAYBE) for v in la.state_at(pos).values())
+            if dbl:
+                ctx.ob(rid, False, f.loc(st), "%s contains no raw mutex operation" % f.name,
+                       txt + " while an RAII guard of this function owns the same mutex (it is unlocked a second time when the guard dies)",
+                       fn=f.label, inst=f.qname)
+            else:
+                ctx.unknown("%s: %s: %s at %s hands lock ownership over outside RAII; whether every path releases the mutex "
+                            "exactly once is not decided by this rule" % (rid, f.label, txt, f.loc(st)))
     return n
 
 
